@@ -208,6 +208,64 @@ def normTransform (k : NormKind) (rows : List (List α)) : List (List α) :=
 
 end
 
+/-! ### parameter objects and calling forms (`LinearScalerParams`, `Whitener`) -/
+
+section
+variable {α : Type}
+
+/-- `LinearScalerParams<F>`: nothing but the method -/
+structure Params (α : Type) where
+  method : Method α
+
+/-- `LinearScalerParams::new(method)` -/
+def Params.new (m : Method α) : Params α := ⟨m⟩
+
+/-- the setter `LinearScalerParams::method(self, method)`: replaces the method, whatever it was -/
+def Params.setMethod (_self : Params α) (m : Method α) : Params α := ⟨m⟩
+
+/-- the constructor functions `LinearScaler::{standard, standard_no_mean, standard_no_std, min_max,
+min_max_range, max_abs}` -/
+def Params.standard : Params α := ⟨.standard true true⟩
+def Params.standardNoMean : Params α := ⟨.standard false true⟩
+def Params.standardNoStd : Params α := ⟨.standard true false⟩
+def Params.minMax [OfNat α 0] [OfNat α 1] : Params α := ⟨.minMax 0 1⟩
+def Params.minMaxRange (lo hi : α) : Params α := ⟨.minMax lo hi⟩
+def Params.maxAbs : Params α := ⟨.maxAbs⟩
+
+/-- `WhiteningMethod` -/
+inductive WMethod where
+  | pca | zca | cholesky
+  deriving DecidableEq, Repr
+
+/-- `Whitener`: nothing but the method; `Whitener::{pca, zca, cholesky}` and the `method(self, m)` setter -/
+structure WParams where
+  method : WMethod
+
+def WParams.pca : WParams := ⟨.pca⟩
+def WParams.zca : WParams := ⟨.zca⟩
+def WParams.cholesky : WParams := ⟨.cholesky⟩
+def WParams.setMethod (_self : WParams) (m : WMethod) : WParams := ⟨m⟩
+
+end
+
+section
+variable {α : Type} [Add α] [Sub α] [Mul α] [Div α] [Neg α] [LT α] [DecidableLT α]
+  [LE α] [DecidableLE α] [OfNat α 0] [OfNat α 1] [NatCast α] [Transc α]
+
+/-- `Fit::fit` of `LinearScalerParams` = `ScalingMethod::fit`: dispatch on the method -/
+def fitParams (eps : α) (p : Nat) (rows : List (List α)) (q : Params α) : Except FitErr (Scaler α) :=
+  match q.method with
+  | .standard wm ws => fitStandard eps p rows wm ws
+  | .minMax lo hi => fitMinMax eps p rows lo hi
+  | .maxAbs => fitMaxAbs eps p rows
+
+/-- `Fit::fit` of `Whitener`: the external factorisation is chosen by the method -/
+def whitenFitParams {ε : Type} (decomp : WMethod → List (List α) → Except ε (List (List α)))
+    (q : WParams) (p : Nat) (rows : List (List α)) : Except (FitErr ⊕ ε) (List α × List (List α)) :=
+  whitenFit (decomp q.method) p rows
+
+end
+
 /-! ### dataset forms -/
 
 /-- the parts of a `DatasetBase` the transformers touch -/
